@@ -600,4 +600,61 @@ def numToStr (dg : DigitGen) (ofmt : Bytes) (x : F64) : Res :=
     if integral && inRange then .ok (if neg && t ≠ 0 then 45 :: decimal t else decimal t)
     else goPrintf dg (addPrecG ofmt) [.f64 x]
 
+/-! ## `print` in the three output modes (`interp/io.go` `printArgs`) -/
+
+/-- a print argument: a number, or anything that already has a text (string constants, input fields, null) -/
+inductive Val
+  | num (x : F64)
+  | str (s : Bytes)
+deriving DecidableEq, Repr
+
+/-- `value.str(floatFormat)` -/
+def valToStr (dg : DigitGen) (floatFormat : Bytes) : Val → Res
+  | .num x => numToStr dg floatFormat x
+  | .str s => .ok s
+
+inductive OutMode | default | csv | tsv
+deriving DecidableEq, Repr
+
+/-- `encoding/csv` `fieldNeedsQuotes` for a one-byte separator; `true` also for a first byte >= 0x80 (could be a Unicode space) -/
+def csvNeedsQuotes (sep : UInt8) (f : Bytes) : Bool :=
+  match f with
+  | [] => false
+  | b :: _ =>
+    f = [92, 46] || f.any (fun c => c = 10 || c = 13 || c = 34 || c = sep) ||
+      b = 32 || (9 ≤ b && b ≤ 13) || b ≥ 128
+
+def joinWith (sep : Bytes) : List Bytes → Bytes
+  | [] => []
+  | [x] => x
+  | x :: rest => x ++ sep ++ joinWith sep rest
+
+/-- what is written once every argument has its text: OFS-joined plus ORS, or one CSV/TSV record (quoting is property C08's
+business: a field that needs quotes is `unmodelled` here) -/
+def emitRecord (mode : OutMode) (ofs ors : Bytes) (texts : List Bytes) : Res :=
+  match mode with
+  | .default => .ok (joinWith ofs texts ++ ors)
+  | m =>
+    let sep : UInt8 := if m = .csv then 44 else 9
+    if texts = [[]] then .ok [34, 34, 10]
+    else if texts.any (csvNeedsQuotes sep) then .unmodelled "csv quoting"
+    else .ok (joinWith [sep] texts ++ [10])
+
+def collectTexts : List Res → Except Res (List Bytes)
+  | [] => .ok []
+  | .ok b :: rest =>
+    match collectTexts rest with
+    | .ok bs => .ok (b :: bs)
+    | .error r => .error r
+  | r :: _ => .error r
+
+/-- `printArgs`: every argument is converted with `p.outputFormat` (OFMT) — in all three output modes; CONVFMT does not occur -/
+def printArgs (dg : DigitGen) (mode : OutMode) (ofmt ofs ors : Bytes) (args : List Val) : Res :=
+  match collectTexts (args.map (valToStr dg ofmt)) with
+  | .ok texts => emitRecord mode ofs ors texts
+  | .error r => r
+
+/-- `p.toString(v)`: the conversion used everywhere else (concatenation, subscripts, string comparison, builtins, `%s`) -/
+def toStringConv (dg : DigitGen) (convfmt : Bytes) (v : Val) : Res := valToStr dg convfmt v
+
 end GoawkModel.C09
